@@ -59,7 +59,7 @@ RESERVED = [K("k3::S-Repeat-reserved"), K("k3::S-Define-reserved"), K("k3::S-Def
             K("k3::S-Define-tuple-reserved"), K("k3::S-Define-tuple-reserved-first"),
             K("k3::S-Repeat-tuple-reserved")]
 S_TALES = [K("k3::S-Pipe3"), K("k3::S-Same-not-twice"), K("k3::S-Same-exists-twice"), K("k3::S-Same-string-twice"), K("k3::S-Not"), K("k3::S-Exists"), K("k3::S-LambdaScope")]
-S_INTERP = [K("k3::S-Interp-text"), K("k3::S-Interp-off"), K("k3::S-Interp-lines"),
+S_INTERP = [K("k3::S-Interp-braces"), K("k3::S-Interp-text"), K("k3::S-Interp-off"), K("k3::S-Interp-lines"),
             K("k3::S-Interp-percent"), K("k3::S-Cdata-then-text")]
 S_I18N = [K("k3::S-Translate-name"), K("k3::S-Translate-name-condition"), K("k3::S-Translate-id"), K("k3::S-Translate-empty"),
           K("k3::S-I18nDomain"), K("k3::S-I18nContext"), K("k3::S-I18nTarget"), K("k3::S-I18nAttributes"), K("k3::S-I18nAttributes-two"),
@@ -288,10 +288,10 @@ PROPS = {
         "included) with each ${expr} replaced by the unescaped string form and $$ by $, also when the "
         "text starts with markup characters.",
         [K("k3::S-TextMode"), K("k3::S-TextMode-lt"), K("k3::S-TextMode-endtag"), K("k3::S-Interp-percent"),
+         K("k3::S-Interp-braces"), K("zpt/template.py::PageTextTemplateFile.render"),
          K("zpt/loader.py::TemplateLoader.load"), K("loader.py::cache.load"),
          U('bounded.units', 'interp', 'B-INTERP')],
-        ["delimiter search of Interpolator.__call__: bounded stand-in B-INTERP only",
-         "PageTextTemplateFile.render encoding"]),
+        ["delimiter search of Interpolator.__call__: bounded stand-in B-INTERP only (S-Interp-braces: two instances)"]),
     "C01": {
         "technique": TECH + "; applied to code emitted by the real compiler for schema templates (K3)",
         "level_text": "For each TAL statement the emitted render code is proved, for all values, all "
@@ -312,7 +312,7 @@ PROPS = {
                       "once iff configured, to bind `error`, and to let non-Exceptions propagate.",
         "level_note": K3_NOTE,
         "units": [K("k3::S-OnError-keep"), K("k3::S-OnError-in-translate"), K("k3::S-OnError-static-body"),
-                  K("k3::S-OnError-two-streams"),
+                  K("k3::S-OnError-two-streams"), K("k3::S-OnError-omit-expr"),
                   K("k3::S-OnError-dict-attributes"), FRESH],
         "not_decided": [],
         "assumptions": K3_ASSUME,
@@ -351,7 +351,7 @@ PROPS = {
                       "read off the pattern: mandatory groups, ASCII-only groups).",
         "units": [K("utils.py::read_bytes"), K("utils.py::detect_encoding"), K("utils.py::read_xml_encoding"),
                   K("template.py::BaseTemplate.write@str"), K("template.py::BaseTemplate.write@bytes"),
-                  K("template.py::BaseTemplateFile.read@body"),
+                  K("template.py::BaseTemplateFile.read@body"), K("zpt/template.py::PageTextTemplateFile.render"),
                   U('pyvc.regexlang', 'meta_unit', 're_meta.order'),
                   U('pyvc.frames', 'render_write_frame', 'render.write_frame')],
         "not_decided": ["RE_META fixes the attribute order http-equiv before content (finding D16)",
